@@ -889,6 +889,15 @@ class SByteArray:
     def __getitem__(self, i):
         return SBytes(self.items, bytearray)[i]
 
+    def __setitem__(self, i, v):
+        if _real_type(i) is slice:
+            self.items[i] = tobytes_items(v)
+            return
+        i = concretize(i) if _real_type(i) is not int else i
+        if not -_real_len(self.items) <= i < _real_len(self.items):
+            raise IndexError("bytearray index out of range")
+        self.items[i] = tobytes_items([v])[0]
+
     def __iter__(self):
         return iter(SBytes(self.items, bytearray))
 
@@ -1686,8 +1695,10 @@ def dispatch(f, /, *a, **k):
         return _io.BytesIO if a[0].exact else _BytesIOSubclass
     if f is bytearray and not a:
         return SByteArray()
-    if f is bytearray and _real_len(a) == 1 and not k and _real_type(a[0]) is int and 0 <= a[0] <= 4096:
-        return SByteArray([0] * a[0])  # a scratch buffer that readinto() may fill with symbolic bytes
+    if f is bytearray and _real_len(a) == 1 and not k and (_real_type(a[0]) is int or _real_type(payload(a[0])) is SInt):
+        n = a[0] if _real_type(a[0]) is int else concretize(payload(a[0]))   # a symbolic length: one path per feasible value
+        if 0 <= n <= 4096:
+            return SByteArray([0] * n)  # a buffer that item assignment / readinto() may fill with symbolic bytes
     if f is builtins.len and _real_len(a) == 1:
         lm = getattr(_real_type(a[0]), "__len__", None)
         if _real_type(lm) is _types.FunctionType and _real_type(a[0]) not in PROXY_TYPES:
